@@ -7,6 +7,7 @@ import Driver.Cd
 import Driver.Dr
 import Driver.Sm
 import Driver.Tm
+import Driver.Lm
 /-! `driver <suite>`: reads a transcript on stdin, prints the model's `obs` line for every `op` line. -/
 
 partial def loopSrv (h : IO.FS.Stream) (out : IO.FS.Stream) (st : Driver.Srv.St) : IO Unit := do
@@ -63,6 +64,15 @@ partial def loopTm (h : IO.FS.Stream) (out : IO.FS.Stream) (st : Driver.Tm.St) :
   | none => pure ()
   loopTm h out st'
 
+partial def loopLm (h : IO.FS.Stream) (out : IO.FS.Stream) (st : Narwhal.Limits.St) : IO Unit := do
+  let line ← h.getLine
+  if line.isEmpty then return ()
+  let (st', o) := Driver.Lm.handle st line
+  match o with
+  | some l => out.putStrLn l
+  | none => pure ()
+  loopLm h out st'
+
 partial def loopStateless (h : IO.FS.Stream) (out : IO.FS.Stream) (f : String → Option String) : IO Unit := do
   let line ← h.getLine
   if line.isEmpty then return ()
@@ -80,6 +90,7 @@ def main (args : List String) : IO UInt32 := do
   | ["client"] => loopCl stdin stdout ({}, []); return 0
   | ["pool"] => loopPl stdin stdout {}; return 0
   | ["direct"] => loopDr stdin stdout {}; return 0
+  | ["limits"] => loopLm stdin stdout { maxConn := 0, inflight := 0, conns := [] }; return 0
   | ["timers"] => loopTm stdin stdout {}; return 0
   | ["s2m"] => loopStateless stdin stdout Driver.Sm.handle; return 0
   | ["codec"] => loopStateless stdin stdout Driver.Cd.handle; return 0
